@@ -31,6 +31,14 @@ V3 == <<Rule("none", "deny")>>
 Isyn == <<Rule("syntax", "A"), Rule("none", "B")>>
 Ityp == <<Rule("none", "A"), Rule("illtyped", "B")>>
 Itgt == <<Rule("none", "A"), Rule("l1", "Zed")>>
+(* two long lists that never deny a TCP request, built so that a decision taken on a prefix of one and the tail of the  *)
+(* other (a request that does not decide on ONE snapshot) denies it: neither list explains that outcome                  *)
+Pad == [i \in 1..3 |-> Rule("udp", "deny")]
+PadL == [i \in 1..40 |-> Rule("udp", "deny")]
+V7L == PadL \o <<Rule("none", "A")>>
+V8L == <<Rule("none", "B")>> \o PadL \o <<Rule("none", "deny")>>
+V7 == Pad \o <<Rule("none", "A")>>
+V8 == <<Rule("none", "B")>> \o Pad \o <<Rule("none", "deny")>>
 SwapLists == {V1, V2, V3, Isyn, Ityp, Itgt}
 Hist(n) == UNION {{<<V1>> \o h : h \in [1..k -> SwapLists]} : k \in 0..n}
 SwapHist2 == Hist(2)
